@@ -164,6 +164,14 @@ class LrParser:
                     ret_val = param.f(*f_args)
                 else:
                     ret_val = None
+                if stack != [0]:
+                    # The start symbol is used recursively, and this is
+                    # an inner occurrence of it: reduce and carry on.
+                    state = stack[-1]
+                    stack.append(param.name)
+                    stack.append(self.goto_table[(state, param.name)])
+                    r_data_stack.append(ret_val)
+                    continue
                 # Break out!
                 stack.append(param.name)
                 stack.append(0)
